@@ -229,13 +229,17 @@ impl<C: Component, T: UnprotectedStorage<C>> UnprotectedStorage<C> for FlaggedSt
     }
 
     unsafe fn insert(&mut self, id: Index, comp: C) {
+        // SAFETY: Requirements passed to caller.
+        unsafe { self.storage.insert(id, comp) };
+        // NOTE: The event is written only once the insertion succeeded. If
+        // the inner `insert` unwinds (e.g. the destructor of a default filler
+        // in a `DefaultVecStorage` panics) the component is not considered
+        // inserted, so no `Inserted` event may be emitted for it.
         if self.emit_event() {
             self.channel
                 .get_mut()
                 .single_write(ComponentEvent::Inserted(id));
         }
-        // SAFETY: Requirements passed to caller.
-        unsafe { self.storage.insert(id, comp) };
     }
 
     unsafe fn remove(&mut self, id: Index) -> C {
